@@ -177,7 +177,7 @@ const childDeadline = 3 * time.Second
 
 // runChild executes the spec in a fresh process under a 3 GiB address-space
 // limit and returns its result, or a failure describing how it died.
-func runChild(spec, sigPrefix string) (res engine.Result) {
+func runChild(spec, sigPrefix, what string) (res engine.Result) {
 	sandboxInit()
 	self, err := os.Executable()
 	if err != nil {
@@ -208,7 +208,7 @@ func runChild(spec, sigPrefix string) (res engine.Result) {
 	case <-time.After(childDeadline):
 		_ = cmd.Process.Kill()
 		<-done
-		res.Fail(sigPrefix+" kind=unbounded", fmt.Sprintf("no outcome within %s in a process of its own (3 GiB address space)", childDeadline))
+		res.Fail(sigPrefix+" kind=unbounded", fmt.Sprintf("%s => no outcome within %s in a process of its own (3 GiB address space)", what, childDeadline))
 		res.Outcome = "unbounded"
 		res.Nontrivial = true
 		res.Hit("isolated")
@@ -220,7 +220,7 @@ func runChild(spec, sigPrefix string) (res engine.Result) {
 		if kind == "fatal:out-of-memory" {
 			kind = "unbounded" // running out of time and running out of memory are two faces of unbounded work
 		}
-		res.Fail(sigPrefix+" kind="+kind, "the process died: "+firstLines(errb.String(), 6))
+		res.Fail(sigPrefix+" kind="+kind, what+" => the process died: "+firstLines(errb.String(), 6))
 		res.Outcome = kind
 		res.Nontrivial = true
 	}
@@ -348,7 +348,7 @@ func execFunc(spec string) (res engine.Result) {
 	}
 	sigPrefix := "fn=" + fn
 	if isolate(fn, args) {
-		return runChild(spec, sigPrefix)
+		return runChild(spec, sigPrefix, callText(fn, mode, args))
 	}
 	leave := enter(needsEnvRestore(fn))
 	defer leave()
@@ -368,7 +368,7 @@ func execFunc(spec string) (res engine.Result) {
 		tainted = true
 		res.Hit("setup-failed")
 		if os.Getenv("C09_CHILD") == "" {
-			r := runChild(spec, sigPrefix)
+			r := runChild(spec, sigPrefix, callText(fn, mode, args))
 			r.Hit("setup-failed")
 			return r
 		}
@@ -414,6 +414,19 @@ func execFunc(spec string) (res engine.Result) {
 // later failures of this process will not reproduce in a fresh process and are
 // dropped by the engine.
 var tainted bool
+
+// callText describes a call without running it.
+func callText(fn, mode string, args []string) string {
+	var xs []string
+	for i := range args {
+		xs = append(xs, fmt.Sprintf("x%d", i))
+	}
+	form := "(" + fn + " " + strings.Join(xs, " ") + ")"
+	if mode == "l" {
+		form = "(eval (list '" + fn + " " + strings.Join(xs, " ") + "))"
+	}
+	return form + " with " + describeArgs(args)
+}
 
 func describeArgs(args []string) string {
 	if len(args) == 0 {
